@@ -11,7 +11,8 @@ from vlib.probe import LibError
 
 ACTIONX_WELL_EVENT = 1 << 20
 
-BODY = ["welopen", "wconprod", "wconinje", "weltarg", "wefac", "gconprod", "gconinje", "wgrupcon", "wtest", "wecon", "nextstep"]
+BODY = ["welopen", "wconprod", "wconinje", "weltarg", "wefac", "gconprod", "gconinje", "wgrupcon", "wtest", "wecon", "nextstep",
+        "gruptree", "wlist", "udq"]
 KINDS = ["actionx", "actionx", "welspecs", "compdat", "wconprod", "wconinje", "wconhist", "welopen", "weltarg", "wefac", "gefac",
          "gruptree", "gconprod", "gconinje", "wgrupcon", "wlist", "wtest", "wecon", "misc", "udq", "wellextra", "groupextra"]
 
@@ -20,6 +21,12 @@ KINDS = ["actionx", "actionx", "welspecs", "compdat", "wconprod", "wconinje", "w
 def case_strategy(draw):
     m = MG.Model()
     m.action_body = BODY
+    # one case in six: action bodies may hold WELPI.  Inside an action WELPI rescales the connection factors at once,
+    # with the current productivity index supplied by the caller of applyAction - that has no counterpart in a deck
+    # with the keyword inlined, so only the immutability half of the property is judged for these cases
+    welpi = draw(st.integers(0, 5)) == 0
+    if welpi:
+        m.action_body = BODY + ["welpi", "welpi", "welpi"]
     nb = draw(st.integers(2, 5))
     blocks = []
     snaps = []
@@ -61,8 +68,11 @@ def case_strategy(draw):
         wells = draw(st.lists(st.sampled_from(pool), min_size=1 if d["qkind"] != "none" else 0, max_size=3, unique=True)) if pool else []
         apps.append({"action": a, "step": n, "wells": wells})
     unit = draw(st.sampled_from(["METRIC", "METRIC", "FIELD", "LAB", "PVT-M"]))
-    return {"unit": unit, "blocks": blocks, "final": final, "apps": apps,
+    case = {"unit": unit, "blocks": blocks, "final": final, "apps": apps,
             "bodies": {a: d["body"] for a, d in m.action_defs.items()}}
+    if welpi:
+        case["wellpi"] = {w: 2.5 for w in sorted(m.wells)}
+    return case
 
 
 def expand(body, wells):
@@ -177,8 +187,9 @@ class C04(Check):
             raise Discard()
         plain = deck_text(case, False)
         inl = deck_text(case, True)
-        r = P.call("sched_apply", text=plain, apps=case["apps"])      # LibError: generator problem or refused body
-        ref = P.call("sched_states", text=inl)
+        welpi = "wellpi" in case and any("WELPI\n" in t for a in case["apps"] for t in case["bodies"][a["action"]])
+        r = P.call("sched_apply", text=plain, apps=case["apps"], wellpi=case.get("wellpi") or {})      # LibError: generator problem or refused body
+        ref = r["before"] if welpi else P.call("sched_states", text=inl)
         before, after = r["before"]["dumps"], r["after"]["dumps"]
         n = len(before)
         if len(after) != n or ref["nsteps"] != n:
@@ -195,6 +206,9 @@ class C04(Check):
             if before[j] != after[j]:
                 d = diff_masked(json.loads(before[j]), json.loads(after[j])) or ("?", None, None)
                 return V("state before the first application was modified by applyAction", j, (d[0], d[2], d[1]), "before")
+        if welpi:
+            ctx.label("welpi-body:immutability-of-earlier-states-only")
+            return None
         for j in range(nfirst, n):
             if after[j] == ref["dumps"][j]:
                 continue
